@@ -266,3 +266,22 @@ pub fn dump_defects(d: &RawDump) -> Option<String> {
     }
     None
 }
+
+
+thread_local! {
+    static BASES: std::cell::RefCell<std::collections::HashMap<(String, usize), egglog::EGraph>> = std::cell::RefCell::new(std::collections::HashMap::new());
+}
+
+/// A fresh engine of the given mode ("plain" | "term" | "proofs") and thread count.  `with_num_threads` builds a thread
+/// pool; building one per case keeps about 10 MB per pool resident (thousands of cases in the thorough tier exhausted
+/// the memory), so one pristine engine per (mode, threads) is kept and CLONED — a clone of a pristine engine is a
+/// pristine engine, sharing the pool.  ONLY for engines that are used strictly one after the other: two LIVE clones
+/// of one e-graph share the bridge's name-indexed action registry (defect 18, a known finding of C08), so engines that
+/// must coexist (semi-naive next to naive, …) are still built separately.
+pub fn fresh(mode: &str, threads: usize) -> egglog::EGraph {
+    BASES.with(|b| b.borrow_mut().entry((mode.to_string(), threads)).or_insert_with(|| match mode {
+        "term" => egglog::EGraph::new_with_term_encoding(),
+        "proofs" => egglog::EGraph::new_with_proofs(),
+        _ => egglog::EGraph::default(),
+    }.with_num_threads(threads)).clone())
+}
